@@ -22,7 +22,7 @@ PROPS = {
             "bus.Wait() is called after every top-level operation so asynchronous deliveries can be compared as a multiset",
         ],
         tests=[
-            dict(name="TestHistory", quick=20000, thorough=60000, shards_thorough=16),
+            dict(name="TestHistory", quick=20000, thorough=480000, shards_thorough=16),
         ],
     ),
     "C04": dict(
@@ -33,8 +33,8 @@ PROPS = {
         crash_is_violation=True,
         assumptions=COMMON_ASSUME + ["a context cancelled before PublishContext is called is what 'already cancelled' means; cancellation during a publish is not generated here"],
         tests=[
-            dict(name="TestSeq", quick=5000, thorough=60000, shards_thorough=8),
-            dict(name="TestConc", quick=300, thorough=2500, shards_thorough=8, race=True, shrinktime="2s"),
+            dict(name="TestSeq", quick=5000, thorough=480000, shards_thorough=8),
+            dict(name="TestConc", quick=300, thorough=20000, shards_thorough=8, race=True, shrinktime="2s"),
         ],
     ),
     "C05": dict(
@@ -45,7 +45,7 @@ PROPS = {
         crash_is_violation=True,
         assumptions=COMMON_ASSUME + ["no generated handler blocks, so a 20 s hang reproduced twice is a lost unlock/Done, not load"],
         tests=[
-            dict(name="TestPanics", quick=6000, thorough=50000, shards_thorough=16),
+            dict(name="TestPanics", quick=6000, thorough=300000, shards_thorough=16),
         ],
     ),
     "C08": dict(
@@ -55,7 +55,7 @@ PROPS = {
         level_note="Cancellation by an asynchronous handler has no determined timing: only at-most-once is asserted for those cases. Hook contexts are not inspected (the property speaks of handler contexts).",
         assumptions=COMMON_ASSUME + ["trace order is the order in which user code was entered (one mutex-protected append per call)"],
         tests=[
-            dict(name="TestCtxHooks", quick=8000, thorough=60000, shards_thorough=16),
+            dict(name="TestCtxHooks", quick=8000, thorough=1200000, shards_thorough=16),
         ],
     ),
     "C06": dict(
@@ -65,9 +65,9 @@ PROPS = {
         level_note="Schedules inside the Go scheduler are sampled (GOMAXPROCS varied), not enumerated; Sequential handlers are left to C07.",
         assumptions=COMMON_ASSUME + ["testing/synctest's fake clock and quiescence detection are faithful", "Wait is called on the publishing goroutine after the last publish (concurrent Wait||Publish is C03's business)"],
         tests=[
-            dict(name="TestWaitShutdown", quick=4000, thorough=40000, shards_thorough=12),
-            dict(name="TestCancelDuringDispatch", quick=1500, thorough=20000, shards_thorough=4),
-            dict(name="TestWaitRace", quick=60, thorough=600, shards_thorough=4, race=True, shrinktime="5s"),
+            dict(name="TestWaitShutdown", quick=4000, thorough=240000, shards_thorough=12),
+            dict(name="TestCancelDuringDispatch", quick=1500, thorough=120000, shards_thorough=4),
+            dict(name="TestWaitRace", quick=60, thorough=3600, shards_thorough=4, race=True, shrinktime="5s"),
         ],
     ),
     "C07": dict(
@@ -78,8 +78,8 @@ PROPS = {
         crash_is_violation=True,
         assumptions=COMMON_ASSUME + ["'publish order' is the order of Publish calls made by one goroutine (README: 'preserves order')"],
         tests=[
-            dict(name="TestOverlap", quick=400, thorough=4000, shards_thorough=8, race=True, shrinktime="5s"),
-            dict(name="TestOrder", quick=3000, thorough=30000, shards_thorough=8, shrinktime="5s"),
+            dict(name="TestOverlap", quick=400, thorough=20000, shards_thorough=8, race=True, shrinktime="5s"),
+            dict(name="TestOrder", quick=3000, thorough=150000, shards_thorough=8, shrinktime="5s"),
         ],
     ),
     "C10": dict(
@@ -89,10 +89,10 @@ PROPS = {
         level_note="The durable-streams server is the client library's in-memory reference server run in-process (its chunking and float64 number decoding are infrastructure, not ebu). Timestamps outside years 1-9999 and invalid UTF-8 are not generated.",
         assumptions=COMMON_ASSUME + ["the in-process durable-streams reference server (memorystorage + NewHandler) is faithful to the protocol", "JSON documents are compared structurally with exact decimal numbers; timestamps by instant"],
         tests=[
-            dict(name="TestMemory", quick=3000, thorough=40000, shards_thorough=6),
-            dict(name="TestSQLite", quick=300, thorough=4000, shards_thorough=10, shrinktime="20s"),
-            dict(name="TestSQLiteMemory", quick=150, thorough=1500, shards_thorough=2, shrinktime="20s"),
-            dict(name="TestDurable", quick=1500, thorough=20000, shards_thorough=6, shrinktime="20s"),
+            dict(name="TestMemory", quick=3000, thorough=80000, shards_thorough=6),
+            dict(name="TestSQLite", quick=300, thorough=8000, shards_thorough=10, shrinktime="20s"),
+            dict(name="TestSQLiteMemory", quick=150, thorough=3000, shards_thorough=2, shrinktime="20s"),
+            dict(name="TestDurable", quick=1500, thorough=40000, shards_thorough=6, shrinktime="20s"),
             dict(name="TestKnownProbes", quick=1, thorough=1, shards_thorough=1, rapid=False),
             dict(name="FuzzRoundTrip", quick=0, thorough=120, shards_thorough=1, fuzz=True, rapid=False, fuzz_workers=8),
         ],
@@ -104,9 +104,9 @@ PROPS = {
         level_note="SQLite read errors are injected through the guarded database-opener hook and a wrapping database/sql driver; durable-streams faults through an in-process RoundTripper. Durable-streams replay batches smaller than a chunk are a listed known finding and are not generated (probed separately).",
         assumptions=COMMON_ASSUME + ["database/sql surfaces a driver Rows.Next error through Rows.Err", "the in-process durable-streams reference server is faithful"],
         tests=[
-            dict(name="TestReplayMemory", quick=6000, thorough=40000, shards_thorough=4),
-            dict(name="TestReplaySQLite", quick=500, thorough=5000, shards_thorough=8, shrinktime="15s"),
-            dict(name="TestReplayDurable", quick=1500, thorough=20000, shards_thorough=4, shrinktime="15s"),
+            dict(name="TestReplayMemory", quick=6000, thorough=120000, shards_thorough=4),
+            dict(name="TestReplaySQLite", quick=500, thorough=15000, shards_thorough=8, shrinktime="15s"),
+            dict(name="TestReplayDurable", quick=1500, thorough=60000, shards_thorough=4, shrinktime="15s"),
             dict(name="TestEnumSmall", quick=1, thorough=1, shards_quick=4, shards_thorough=16, rapid=False),
             dict(name="TestKnownProbes", quick=1, thorough=1, shards_thorough=1, rapid=False),
         ],
@@ -119,10 +119,10 @@ PROPS = {
         crash_is_violation=True,
         assumptions=COMMON_ASSUME + ["events carry a unique id field by which their record is found"],
         tests=[
-            dict(name="TestPersistSeq", quick=1500, thorough=30000, shards_thorough=6),
-            dict(name="TestPersistConc", quick=200, thorough=2500, shards_thorough=6, race=True, shrinktime="10s"),
-            dict(name="TestPersistSQLite", quick=100, thorough=2000, shards_thorough=4, shrinktime="15s"),
-            dict(name="TestPersistDurable", quick=200, thorough=4000, shards_thorough=2, shrinktime="15s"),
+            dict(name="TestPersistSeq", quick=1500, thorough=90000, shards_thorough=6),
+            dict(name="TestPersistConc", quick=200, thorough=7500, shards_thorough=6, race=True, shrinktime="10s"),
+            dict(name="TestPersistSQLite", quick=100, thorough=6000, shards_thorough=4, shrinktime="15s"),
+            dict(name="TestPersistDurable", quick=200, thorough=12000, shards_thorough=2, shrinktime="15s"),
             dict(name="TestEnumOptionOrders", quick=1, thorough=1, shards_thorough=1, rapid=False),
         ],
     ),
@@ -133,8 +133,8 @@ PROPS = {
         level_note="Timeouts are real 2 ms contexts that the blocking wrapper waits for, so no timing assumption is involved.",
         assumptions=COMMON_ASSUME + ["the wrapper store sees every Append attempt of the bus"],
         tests=[
-            dict(name="TestFailuresMemory", quick=1200, thorough=15000, shards_thorough=12),
-            dict(name="TestFailuresSQLite", quick=200, thorough=2500, shards_thorough=4, shrinktime="15s"),
+            dict(name="TestFailuresMemory", quick=1200, thorough=60000, shards_thorough=12),
+            dict(name="TestFailuresSQLite", quick=200, thorough=10000, shards_thorough=4, shrinktime="15s"),
         ],
     ),
     "C15": dict(
@@ -145,7 +145,7 @@ PROPS = {
         assumptions=COMMON_ASSUME,
         tests=[
             dict(name="TestProduct", quick=1, thorough=1, shards_thorough=1, rapid=False),
-            dict(name="TestRandom", quick=3000, thorough=40000, shards_thorough=8),
+            dict(name="TestRandom", quick=3000, thorough=800000, shards_thorough=8),
         ],
     ),
     "C16": dict(
@@ -156,9 +156,9 @@ PROPS = {
         crash_is_violation=True,
         assumptions=COMMON_ASSUME + ["an event needing more than |names|+2 upcaster applications is looping (the registered graph has at most |names| nodes)"],
         tests=[
-            dict(name="TestSequences", quick=8000, thorough=60000, shards_thorough=8),
+            dict(name="TestSequences", quick=8000, thorough=600000, shards_thorough=8),
             dict(name="TestEnumSmall", quick=1, thorough=1, shards_quick=2, shards_thorough=16, rapid=False),
-            dict(name="TestConcurrentPairs", quick=300, thorough=3000, shards_thorough=4, race=True, shrinktime="5s"),
+            dict(name="TestConcurrentPairs", quick=300, thorough=30000, shards_thorough=4, race=True, shrinktime="5s"),
         ],
     ),
     "C17": dict(
@@ -168,8 +168,8 @@ PROPS = {
         level_note="Graphs are acyclic by construction (C16 covers acceptance); at most one failing upcaster per case.",
         assumptions=COMMON_ASSUME,
         tests=[
-            dict(name="TestRawGraph", quick=4000, thorough=40000, shards_thorough=10),
-            dict(name="TestTypedChain", quick=3000, thorough=30000, shards_thorough=6),
+            dict(name="TestRawGraph", quick=4000, thorough=400000, shards_thorough=10),
+            dict(name="TestTypedChain", quick=3000, thorough=300000, shards_thorough=6),
             dict(name="FuzzGraph", quick=0, thorough=120, shards_thorough=1, fuzz=True, rapid=False, fuzz_workers=8),
         ],
     ),
@@ -180,7 +180,7 @@ PROPS = {
         level_note="Collections use separate stores (the documented usage); callbacks are counted, not timed.",
         assumptions=COMMON_ASSUME,
         tests=[
-            dict(name="TestFold", quick=5000, thorough=60000, shards_thorough=16),
+            dict(name="TestFold", quick=5000, thorough=240000, shards_thorough=16),
         ],
     ),
     "C19": dict(
@@ -190,9 +190,9 @@ PROPS = {
         level_note="Invalid UTF-8 keys are not generated (JSON cannot carry them). Native fuzzing cannot be pinned to a seed; its saved crasher is the reproducible unit.",
         assumptions=COMMON_ASSUME + ["the in-process durable-streams reference server is faithful"],
         tests=[
-            dict(name="TestRoundTripMemory", quick=2000, thorough=30000, shards_thorough=4),
-            dict(name="TestRoundTripSQLite", quick=150, thorough=2500, shards_thorough=3, shrinktime="15s"),
-            dict(name="TestRoundTripDurable", quick=300, thorough=5000, shards_thorough=2, shrinktime="15s"),
+            dict(name="TestRoundTripMemory", quick=2000, thorough=60000, shards_thorough=4),
+            dict(name="TestRoundTripSQLite", quick=150, thorough=5000, shards_thorough=3, shrinktime="15s"),
+            dict(name="TestRoundTripDurable", quick=300, thorough=10000, shards_thorough=2, shrinktime="15s"),
             dict(name="TestHostile", quick=20000, thorough=200000, shards_thorough=6),
             dict(name="FuzzApply", quick=0, thorough=180, shards_thorough=1, fuzz=True, rapid=False, fuzz_workers=8),
         ],
@@ -204,8 +204,8 @@ PROPS = {
         level_note="Span leaks are judged after bus.Wait(); durations are not inspected.",
         assumptions=COMMON_ASSUME + ["the OpenTelemetry SDK's span recorder and manual reader report faithfully"],
         tests=[
-            dict(name="TestRecording", quick=3000, thorough=30000, shards_thorough=8),
-            dict(name="TestOTel", quick=1000, thorough=8000, shards_thorough=8),
+            dict(name="TestRecording", quick=3000, thorough=600000, shards_thorough=8),
+            dict(name="TestOTel", quick=1000, thorough=160000, shards_thorough=8),
         ],
     ),
     "C14": dict(
@@ -215,7 +215,7 @@ PROPS = {
         level_note="SIGKILL keeps the OS page cache, so power-loss durability (synchronous=NORMAL vs FULL) cannot be distinguished here.",
         assumptions=COMMON_ASSUME + ["an acknowledgement line written to the pipe before the kill is read by the parent after the child's death", "the OS keeps written pages of a killed process (no power loss)"],
         tests=[
-            dict(name="TestKillReopen", quick=150, thorough=600, shards_thorough=16, shrinktime="30s"),
+            dict(name="TestKillReopen", quick=150, thorough=3000, shards_thorough=16, shrinktime="30s"),
         ],
     ),
     "C03": dict(
@@ -226,7 +226,7 @@ PROPS = {
         crash_is_violation=True,
         assumptions=COMMON_ASSUME + ["a race report appended to the detector's log file while a case runs belongs to that case (cases run one at a time)"],
         tests=[
-            dict(name="TestPrograms", quick=300, thorough=4000, shards_thorough=12, race=True, shrinktime="20s",
+            dict(name="TestPrograms", quick=300, thorough=16000, shards_thorough=12, race=True, shrinktime="20s",
                  gorace="log_path={sdir}/race suppress_equal_stacks=0 suppress_equal_addresses=0", timeout_quick=1200),
         ],
     ),
@@ -238,9 +238,9 @@ PROPS = {
         crash_is_violation=True,
         assumptions=COMMON_ASSUME + ["testing/synctest quiescence (synctest.Wait) is faithful", "no bus lock is held while user code runs - a violation of this shows as a 60 s hang and is reported"],
         tests=[
-            dict(name="TestScheduled", quick=6000, thorough=60000, shards_thorough=8),
+            dict(name="TestScheduled", quick=6000, thorough=180000, shards_thorough=8),
             dict(name="TestExhaustiveSmall", quick=150, thorough=1500, shards_thorough=6, shrinktime="10s"),
-            dict(name="TestFreeRunning", quick=600, thorough=6000, shards_thorough=4, race=True, shrinktime="5s"),
+            dict(name="TestFreeRunning", quick=600, thorough=18000, shards_thorough=4, race=True, shrinktime="5s"),
         ],
     ),
     "C12": dict(
@@ -250,11 +250,11 @@ PROPS = {
         level_note="After a crash nothing reaches the stores and later deliveries of that run are ignored (the bus object keeps running, the process is considered dead). Durable-streams runs use one event per chunk so that synthetic event offsets are true resume points (the other shapes are C10's known finding). Other subscribers never re-publish the subscribed types. Concurrent publishers run under the cooperative scheduler (switch points: between a publish's append and its dispatch, at handlers, before SaveOffset) with the process dying at a drawn step.",
         assumptions=COMMON_ASSUME + ["the wrapper stores see every store operation of the bus", "a crash is modelled as: no further store operation takes effect"],
         tests=[
-            dict(name="TestResumeMemory", quick=4000, thorough=40000, shards_thorough=10, shrinktime="20s"),
-            dict(name="TestResumeSQLite", quick=120, thorough=1500, shards_thorough=4, shrinktime="20s"),
-            dict(name="TestResumeDurable", quick=300, thorough=4000, shards_thorough=2, shrinktime="20s"),
-            dict(name="TestScheduledPublishers", quick=3000, thorough=40000, shards_thorough=4, shrinktime="20s"),
-            dict(name="TestFreePublishers", quick=300, thorough=3000, shards_thorough=4, race=True, shrinktime="5s"),
+            dict(name="TestResumeMemory", quick=4000, thorough=160000, shards_thorough=10, shrinktime="20s"),
+            dict(name="TestResumeSQLite", quick=120, thorough=6000, shards_thorough=4, shrinktime="20s"),
+            dict(name="TestResumeDurable", quick=300, thorough=16000, shards_thorough=2, shrinktime="20s"),
+            dict(name="TestScheduledPublishers", quick=3000, thorough=160000, shards_thorough=4, shrinktime="20s"),
+            dict(name="TestFreePublishers", quick=300, thorough=12000, shards_thorough=4, race=True, shrinktime="5s"),
             dict(name="TestKnownProbes", quick=1, thorough=1, shards_thorough=1, rapid=False),
         ],
     ),
